@@ -6,6 +6,7 @@ cd /repo || exit 2
 if ! git diff --quiet; then echo "repo dirty"; exit 2; fi
 if ! git apply --check "$P" 2>/dev/null; then echo "PATCH-DOES-NOT-APPLY $P"; exit 3; fi
 git apply "$P"
+rm -rf /tmp/.ev_backup && cp -r /verif/evidence /tmp/.ev_backup
 export GOFLAGS=-mod=mod GOPROXY=off GOSUMDB=off GOTOOLCHAIN=local
 if ! go build ./... 2>/dev/null; then echo "BUILD-FAILS"; fi
 for ID in "$@"; do
@@ -14,3 +15,4 @@ for ID in "$@"; do
   echo "$OUT" | grep "^  violation\|^UNDECIDED\|^ANALYSIS-ERROR" | cut -c1-400
 done
 git checkout -q -- . ; git clean -fdq
+rm -rf /verif/evidence && mv /tmp/.ev_backup /verif/evidence
